@@ -169,6 +169,8 @@ type gen struct {
 	n     int
 	all   []*tnode
 	clock int64
+
+	deepLeft int
 }
 
 func (g *gen) tick() time.Time { g.clock += 1000; return time.Unix(0, g.clock) }
@@ -176,6 +178,9 @@ func (g *gen) tick() time.Time { g.clock += 1000; return time.Unix(0, g.clock) }
 func (g *gen) node(depth int) *tnode {
 	t := g.t
 	g.n++
+	if depth == 0 && rapid.IntRange(0, 5).Draw(t, "deepChain") == 0 {
+		g.deepLeft = rapid.IntRange(6, 10).Draw(t, "deepLevels")
+	}
 	n := &tnode{id: fmt.Sprintf("x%d", g.n), typ: rapid.SampledFrom(nodeTypes).Draw(t, "ntype"), marker: fmt.Sprintf("mk_%d_", g.n)}
 	g.all = append(g.all, n)
 	n.points = append(n.points, data.Point{Type: "marker", Text: n.marker, Time: g.tick()})
@@ -218,6 +223,10 @@ func (g *gen) node(depth int) *tnode {
 			c.deleted = rapid.IntRange(0, 5).Draw(t, "deleted") == 0
 			n.children = append(n.children, c)
 		}
+	} else if g.deepLeft > 0 {
+		// one case in six: a chain far deeper than the bushy part (12+ levels below the exported node)
+		g.deepLeft--
+		n.children = append(n.children, g.node(depth+1))
 	}
 	return n
 }
